@@ -19,6 +19,7 @@ def handle (j : Json) : Except String Json := do
   | "fusion" => Driver.fusion j
   | "da" => Driver.da j
   | "hoist" => Driver.hoist j
+  | "time_expr" => Driver.timeExpr j
   | "default_order" => Driver.defaultOrder j
   | _ => throw s!"unknown op {op}"
 
